@@ -208,6 +208,16 @@ var c12Calls = []c12Call{
 	{"map with yielding Stringer elements", func() string {
 		return string(redact.Sprintf("%v", map[string]yieldStr{"k1": {"v1"}, "k2": {"v2"}}))
 	}},
+	// the projections and everything else reachable from a printing call that may set itself up on first use
+	{"Redact/StripMarkers/EscapeMarkers/StringBuilder.String of results", func() string {
+		r := redact.Sprintf("k=%s v=%d", "sec"+mEnd, 7)
+		var b redact.StringBuilder
+		b.Printf("x%vy", "u\n")
+		return string(r.Redact()) + "|" + r.StripMarkers() + "|" + string(redact.EscapeMarkers([]byte("a"+mStart+"b"))) + "|" + b.String() + "|" + string(redact.EscapeBytes([]byte("e\n"+mEnd)))
+	}},
+	{"HelperForErrorf %w whose operand double-panics (propagates)", func() string {
+		return guard(func() string { return hef("a %w b", panErrT{panPayT{"x"}}) })
+	}},
 	// fields wider than any per-printer scratch array (a change may move such scratch memory to package scope)
 	{"wide integer fields", func() string {
 		return string(redact.Sprintf("%0100d|%#.80x|%70v|%-90o|%.70b|%#.66U", 123456789, 255, []int{7, 8}, 8, 5, 0x1F600))
@@ -1210,10 +1220,30 @@ func checkC12(c *Ctx) {
 	record("C12/schedules", st, errs, map[string]interface{}{"scenarios": len(c12Scenarios(c.Tier)), "threads": "2 (thorough: also 2x2 calls and 3 threads)", "deviation_budget_completed": st.BudgetDone, "scheduling_points": "pool Get/Put, every buffer write, inside user methods"})
 	// (c) free-running race pass in a separately built -race binary
 	if rb := os.Getenv("VERIF_RACE_BIN"); rb != "" {
+		// cold starts: a fresh process per first call (what is set up on first use can only race once per process)
+		step := 3
+		if !c.Quick() {
+			step = 1
+		}
+		var coldErr error
+		var coldOut string
+		var coldRuns int64
+		for rot := 0; rot < len(c12Calls) && coldErr == nil; rot += step {
+			cc := exec.Command(rb, "C12RACE", c.Tier)
+			cc.Env = append(os.Environ(), "GORACE=halt_on_error=1 exitcode=66", fmt.Sprintf("VERIF_COLD_ONLY=%d", rot))
+			o, e := cc.CombinedOutput()
+			coldRuns++
+			if e != nil {
+				coldErr, coldOut = e, fmt.Sprintf("cold start with first call %q: ", c12Calls[rot].Name)+string(o)
+			}
+		}
 		cmd := exec.Command(rb, "C12RACE", c.Tier)
 		cmd.Env = append(os.Environ(), "GORACE=halt_on_error=1 exitcode=66")
 		out, err := cmd.CombinedOutput()
 		o := string(out)
+		if coldErr != nil {
+			err, o = coldErr, coldOut
+		}
 		if len(o) > 3000 {
 			o = o[:3000]
 		}
@@ -1223,6 +1253,7 @@ func checkC12(c *Ctx) {
 			fmt.Sscanf(o[i:], "RACEPASS calls=%d", &n)
 		}
 		sec.Evaluations = n
+		sec.Extra["cold_start_processes"] = coldRuns
 		c.sections = append(c.sections, sec)
 		fmt.Fprintf(os.Stderr, "[C12 %s] race pass: calls=%d err=%v\n", c.Tier, n, err)
 		if err != nil {
@@ -1238,7 +1269,49 @@ func checkC12(c *Ctx) {
 // checkC12Race runs inside the -race build.
 func checkC12Race(c *Ctx) {
 	vsync.SetController(nil)
-	// references from this build, single goroutine, before any concurrency
+	coldRot := 0
+	fmt.Sscan(os.Getenv("VERIF_COLD_ONLY"), &coldRot)
+	// phase 0: COLD START. 16 goroutines leave a barrier together and make the very first calls of the process,
+	// each a different one, before anything ran sequentially: state that is set up on first use (lazily compiled
+	// patterns, caches) is initialised under contention here and nowhere else. Results are compared afterwards.
+	{
+		start := make(chan struct{})
+		var wg0 sync.WaitGroup
+		first := make([][]c12Obs, 16)
+		for g := 0; g < 16; g++ {
+			g := g
+			wg0.Add(1)
+			go func() {
+				defer wg0.Done()
+				<-start
+				// every goroutine makes the SAME first call (index rot), so that whatever it sets up on first use is
+				// set up by 16 goroutines at once; afterwards the orders diverge
+				first[g] = append(first[g], doCall(coldRot%len(c12Calls)))
+				for k := range c12Calls {
+					if os.Getenv("VERIF_COLD_ONLY") != "" && k >= 6 {
+						break // a cold-only process is about its FIRST calls
+					}
+					i := (coldRot + 1 + k + g*5) % len(c12Calls)
+					first[g] = append(first[g], doCall(i))
+				}
+			}()
+		}
+		close(start)
+		wg0.Wait()
+		for g := range first {
+			for _, o := range first[g] {
+				if ref := clone(c12Calls[o.call].Run()); o.keep != ref || o.result != o.keep {
+					fmt.Printf("cold start, goroutine %d: call %q returned %q (now %q), sequentially it returns %q\n", g, c12Calls[o.call].Name, o.keep, o.result, ref)
+					os.Exit(1)
+				}
+			}
+		}
+	}
+	if os.Getenv("VERIF_COLD_ONLY") != "" {
+		fmt.Printf("RACEPASS calls=%d\n", 16*(len(c12Calls)+1))
+		return
+	}
+	// references from this build, single goroutine
 	var refs []string
 	for _, cl := range c12Calls {
 		refs = append(refs, clone(cl.Run()))
